@@ -112,7 +112,8 @@ def generate(alg_name, struct_name, two_block, hermitian_input):
     A = "(A : Type*) [Ring A] [StarRing A] [Algebra ℚ A] [StarModule ℚ A] [Filtered A] [Blocks A]"
     lines.append(f"/-- Equations of `pymablock.algorithms.{alg_name}`"
                  f" (two_block_optimized = {str(two_block).lower()}), extracted mechanically. -/")
-    lines.append(f"structure {struct_name} {A} (u : Unperturbed A) where")
+    utype = "Unperturbed" if hermitian_input else "UnperturbedNH"
+    lines.append(f"structure {struct_name} {A} (u : {utype} A) where")
     names = [mangle(n) for n in inputs + computed + [p.name for p in alg.products]]
     lines.append("  (" + " ".join(names) + " : A)")
     nhead = len(lines)
@@ -212,7 +213,8 @@ def write_all(outdir):
     inst = INST_HEADER
     for struct, m in meta.items():
         inst += f"/-- the degenerate solution (no perturbation): consistency of the equations of `{struct}` -/\n"
-        inst += f"noncomputable def triv{struct} (q : ℚ) : {struct} ℚ (unperturbed q) where\n"
+        uarg = "(unperturbed q)" if struct != "NonHermEqs" else "(unperturbed q).toUnperturbedNH"
+        inst += f"noncomputable def triv{struct} (q : ℚ) : {struct} ℚ {uarg} where\n"
         for n in m["data_fields"]:
             inst += f"  {n} := {m['triv'][n]}\n"
         for f, _t in m["prop_fields"]:
